@@ -14,7 +14,7 @@ func init() {
 		ID: "C10", Fn: c10,
 		Rule:        "repetition: games produced by refchess with constructed cycles (reversible move pairs repeated, interleaved, perturbed by rights loss, double pushes, irreversible moves, FEN clocks 40-99, FEN starts carrying an ep square); at every ply CheckRepetitions(n), n=1..4, compared with the count of earlier identical (placement, side, rights, ep) records, and HalfMoveClock with the rule count; material: exhaustive enumeration of all multisets of <=3 extra pieces per side (P,N,B-light,B-dark,R,Q) on random legal placements with the three-valued oracle must-report / must-not-report / free; distinct = distinct (game record prefix) identities + material signatures",
 		Assumptions: []string{"refchess game record is the reference; material classes exactly as worded in C10, everything else is not judged"},
-		Required:    []string{"plies", "rep_ge1_plies", "rep_ge2_plies", "rep_ge3_plies", "cycles_with_rights_loss", "cycles_with_double_push", "lookalike_different_ep", "fen_clock_games", "material_signatures", "material_must_report", "material_must_not", "material_free", "games_with_ep_start"},
+		Required:    []string{"plies", "rep_ge1_plies", "rep_ge2_plies", "rep_ge3_plies", "games_beyond_512_plies", "cycles_with_rights_loss", "cycles_with_double_push", "lookalike_different_ep", "fen_clock_games", "material_signatures", "material_must_report", "material_must_not", "material_free", "games_with_ep_start"},
 		MinEvals:    10000,
 	})
 }
@@ -159,6 +159,67 @@ var c10Starts = []string{
 	"8/8/4k3/8/8/2B1K3/8/6n1 w - - 99 90",
 }
 
+// buildVeryLongGame: a legal game from the start position made of knight shuffles (which
+// knights shuffle changes from segment to segment, so the sequence is not periodic) with a pawn
+// move of either side every 50-110 plies.
+func buildVeryLongGame(r *Rng, start *rc.Board, plies int) []Step {
+	var steps []Step
+	b := start
+	play := func(u string) bool {
+		for _, l := range b.Legal() {
+			if l.UCI() == u {
+				n := b.Apply(l)
+				steps = append(steps, Step{b, l, n})
+				b = n
+				return true
+			}
+		}
+		return false
+	}
+	wp := []string{"a2a3", "h2h3", "d2d3", "a3a4", "e2e3", "h3h4"}
+	bp := []string{"a7a6", "h7h6", "d7d6", "a6a5", "e7e6", "h6h5"}
+	wk := [][2]string{{"g1f3", "f3g1"}, {"b1c3", "c3b1"}}
+	bk := [][2]string{{"g8f6", "f6g8"}, {"b8c6", "c6b8"}}
+	nextPawn := 50 + r.Intn(60)
+	for len(steps) < plies {
+		if len(steps) >= nextPawn && (len(wp) > 0 || len(bp) > 0) {
+			nextPawn = len(steps) + 50 + r.Intn(60)
+			if b.White && len(wp) > 0 {
+				if !play(wp[0]) {
+					break
+				}
+				wp = wp[1:]
+				continue
+			}
+			if !b.White && len(bp) > 0 {
+				if !play(bp[0]) {
+					break
+				}
+				bp = bp[1:]
+				continue
+			}
+		}
+		// a segment: one white and one black knight go out and back k times
+		w, bl := wk[r.Intn(2)], bk[r.Intn(2)]
+		k := 1 + r.Intn(5)
+		if !b.White {
+			// make it white's turn with a single black knight move pair later: start segment with black out
+			if !play(bl[0]) || !play(w[0]) || !play(bl[1]) || !play(w[1]) {
+				break
+			}
+			continue
+		}
+		ok := true
+		for j := 0; j < k && ok; j++ {
+			ok = play(w[0]) && play(bl[0]) && play(w[1]) && play(bl[1])
+		}
+		if !ok {
+			break
+		}
+	}
+	return steps
+}
+
 func c10(c *Ctx) {
 	rep := c.Rep
 	nGames := c.Size(480, 160000)
@@ -184,6 +245,13 @@ func c10(c *Ctx) {
 			maxPlies = 480
 		}
 		steps := buildCycleGame(r, start, maxPlies, rep)
+		if i%16 == 5 {
+			// far beyond the 512 plies the position's history holds: knight shuffles of changing
+			// shape, a pawn move of either side every 50-110 plies
+			start = rc.MustFEN(rc.StartFEN)
+			steps = buildVeryLongGame(r, start, 600+r.Intn(600))
+			rep.Inc("games_beyond_512_plies")
+		}
 		p := engPos(start.FEN())
 		records := []string{start.RepKey()}
 		placements := map[string]string{}
